@@ -197,6 +197,23 @@ theorem tokenizer_bare_opcode (b : UInt8) (rest : Bytes) (h : 79 ≤ b.toNat) :
     getOp (b :: rest) = some (b.toNat, [], rest) :=
   Lemmas.getOp_bare b rest h
 
+/-- Two empty scripts never verify (btcd answers this case before building an engine). -/
+theorem empty_scripts_fail (fl : Flags) (chk : Checker) (wit : List Bytes) :
+    verifyScript fl chk [] [] wit = .error .EVAL_FALSE :=
+  Lemmas.empty_scripts_fail fl chk wit
+
+/-- Before taproot activation a native version-1 32-byte program is anyone-can-spend, … -/
+theorem taproot_inactive_succeeds (fl : Flags) (chk : Checker) (wit : List Bytes) (prog : Bytes)
+    (h32 : prog.length = 32) (ht : fl.taproot = false) :
+    verifyWitnessProgram fl chk wit 1 prog false = .ok () :=
+  Lemmas.taproot_inactive_succeeds fl chk wit prog h32 ht
+
+/-- … and witness versions 2..16 succeed for every program, witness and nesting unless discouraged by policy. -/
+theorem future_witness_version_succeeds (fl : Flags) (chk : Checker) (wit : List Bytes) (ver : Nat)
+    (prog : Bytes) (p : Bool) (hv : 2 ≤ ver) (hd : fl.discourageWitnessProgram = false) :
+    verifyWitnessProgram fl chk wit ver prog p = .ok () :=
+  Lemmas.future_witness_version_succeeds fl chk wit ver prog p hv hd
+
 /-! ### signature encodings -/
 
 /-- `der_strict ⊆ der_lax`: a signature that satisfies the strict DER rule (BIP66, as enforced under
